@@ -23,6 +23,9 @@ CLAIMS = {
 
  "C07": ("Structural necessary conditions of panic containment: every goroutine root that reaches publisher/camera parsing has a recover registered first; per-packet code in the publishing session indexes packet bytes only where the Go compiler's prove pass shows the index in range; converter loops drop a bad item under a per-item recover; parameter-set decoders convert panics to errors; aggregation scans make progress. Does not decide correctness of later conversion.",
          "call-graph reachability + SSA dominance + compiler bounds-check-elimination report (no execution)", "DESIGN.md §3 C07"),
+
+ "C08": ("Structural necessary conditions of valid, faithful FLV output: tag framing constants evaluated (11-byte header, size field, PreviousTagSize = 11+len, 9-byte file header), unsigned timestamp rebasing guarded, headers precede media on every path, each packetiser's tag fields derive from the right frame fields, key-frame constants agree across sibling implementations. Does not decide that emitted bytes parse back to the source frames.",
+         "constant/table evaluation + SSA dependence + path-state + sibling agreement", "DESIGN.md §3 C08"),
 }
 NA = {
  "C16": "pure input/output language equivalence of the pattern matcher over all pattern/path pairs: truth lives in string values, no structural clause implies it; deciding it needs exhaustive evaluation (execution), a different technique family",
